@@ -272,6 +272,52 @@ async fn rpc_pairing(a: &Value) -> Value {
     json!({"n": n, "mismatched": mismatched, "errors": errors, "max_handler_invocations_per_request": max_calls, "requests_handled": handled})
 }
 
+/// C06 / C07 on the real decoders: a bounded exhaustive sweep of byte strings offered to read_request / read_response
+/// (every header frame of length 0..=5 over a 4-letter alphabet, with and without a body frame; every truncation and every
+/// single-byte corruption of two valid messages; huge length prefixes).  No input may panic; Ok only where the layout allows it.
+async fn decode_sweep(_a: &Value) -> Value {
+    use futures::FutureExt;
+    let cfg = Config::default();
+    let pre: Vec<u8> = b"anemo\x00\x01\x00".to_vec();
+    let mut inputs: Vec<Vec<u8>> = Vec::new();
+    let alpha = [0u8, 1, 0x7f, 0xff];
+    for n in 0..=5usize {
+        let total = 4usize.pow(n as u32);
+        for code in 0..total {
+            let mut payload = Vec::new();
+            let mut c = code;
+            for _ in 0..n { payload.push(alpha[c % 4]); c /= 4; }
+            let mut m = pre.clone();
+            m.extend_from_slice(&(n as u32).to_be_bytes());
+            m.extend_from_slice(&payload);
+            inputs.push(m.clone());                                  // header frame only
+            m.extend_from_slice(&0u32.to_be_bytes());
+            inputs.push(m);                                          // + empty body frame
+        }
+    }
+    // two valid messages: every truncation, every byte replaced by 0x00 / 0xff
+    let req = h::write_request_bytes(&cfg, Request::new(Bytes::from_static(b"body")).with_route("/svc/m").with_header("k", "v")).await.unwrap();
+    let resp = h::write_response_bytes(&cfg, Response::new(Bytes::from_static(b"body")).with_header("k", "v")).await.unwrap();
+    for m in [&req, &resp] {
+        for k in 0..m.len() { inputs.push(m[..k].to_vec()); }
+        for k in 0..m.len() { for b in [0u8, 0xff] { let mut x = m.clone(); x[k] = b; inputs.push(x); } }
+    }
+    for len in [0x7fff_ffffu32, 0xffff_ffff, 0x0080_0001] {
+        let mut m = pre.clone(); m.extend_from_slice(&len.to_be_bytes()); m.extend_from_slice(&[0; 16]); inputs.push(m);
+    }
+    let (mut panics, mut first_panic, mut accepted_req, mut accepted_resp): (u64, Option<Vec<u8>>, u64, u64) = (0, None, 0, 0);
+    let hook = std::panic::take_hook();
+    std::panic::set_hook(Box::new(|_| {}));
+    for inp in &inputs {
+        let r = std::panic::AssertUnwindSafe(h::read_request_bytes(&cfg, inp)).catch_unwind().await;
+        match r { Ok(Ok(_)) => accepted_req += 1, Ok(Err(_)) => {}, Err(_) => { panics += 1; if first_panic.is_none() { first_panic = Some(inp.clone()); } } }
+        let r = std::panic::AssertUnwindSafe(h::read_response_bytes(&cfg, inp)).catch_unwind().await;
+        match r { Ok(Ok(_)) => accepted_resp += 1, Ok(Err(_)) => {}, Err(_) => { panics += 1; if first_panic.is_none() { first_panic = Some(inp.clone()); } } }
+    }
+    std::panic::set_hook(hook);
+    json!({"inputs": inputs.len(), "panics": panics, "first_panicking_input": first_panic.map(hex::encode), "accepted_as_request": accepted_req, "accepted_as_response": accepted_resp})
+}
+
 fn ev(e: &anemo::types::PeerEvent) -> Value {
     match e {
         anemo::types::PeerEvent::NewPeer(p) => json!({"new": p.0[0]}),
@@ -427,6 +473,7 @@ async fn run(args: Vec<String>) {
         "timeout_select" => timeout_select(&a).await,
         "auth" => auth(&a).await,
         "admission" => admission(&a).await,
+        "decode_sweep" => decode_sweep(&a).await,
         "history" => history(&a).await,
         "rpc_pairing" => rpc_pairing(&a).await,
         "default_timeouts" => default_timeouts(&a).await,
